@@ -16,7 +16,23 @@
 //! checked in the `extra` sub-run on a fresh context and after each accepted set.
 //! The claims are about the reported text, never about the input spelling.
 //!
-//! Deviations from DESIGN.md: lives in `vf-tree` (not vf-core).
+//! Deviations from DESIGN.md: lives in `vf-tree` (not vf-core). `SessionStateBuilder::new_from_existing`
+//! (used by every runtime SET) documents that it switches the start-up-only option
+//! `datafusion.catalog.create_default_catalog_and_schema` off once the default catalog exists: that
+//! key is not compared after a runtime SET. `information_schema` is never switched off (SHOW needs
+//! it). A SHOW that fails on a (tiny) configured memory limit is inconclusive.
+//!
+//! FINDINGS (genuine, open in /verif/known_findings.json; cases under /verif/regressions/C43/c43b):
+//! * `failed-set-materialises-default`: the c43a finding seen through SQL.
+//! * `runtime-reported-text-rejected:unlimited` (and sizes below 1K, reported as a plain number):
+//!   `SHOW` reports texts for runtime options that `SET` rejects. Proposed repair:
+//!   /verif/fixes/C43-runtime-reported-texts-settable.diff.
+//! * `disk-option-set-resets-other-disk-options`: a SET of temp_directory / max_temp_directory_size /
+//!   max_spill_merge_fan_in resets the other two (`RuntimeEnvBuilder::from_runtime_env` keeps no
+//!   `disk_manager_builder`, the `with_*` setters start from `unwrap_or_default()`); no patch proposed
+//!   (needs a `DiskManagerBuilder` seeded from the existing `DiskManager`).
+//!
+//! Sensitivity probes: PROBES-PLACEHOLDER
 use crate::c43a::{UMBRELLA, UMBRELLA_SUBS, Val, pool, val_strategy};
 use datafusion::arrow::array::{Array, StringArray};
 use datafusion::common::config::ConfigOptions;
@@ -34,6 +50,9 @@ pub struct Case {
     pub base: Vec<(u16, Val)>,
     pub key: u16,
     pub value: Val,
+    /// additionally SET every runtime option to the text SHOW reports for it (claim 1)
+    #[serde(default)]
+    pub sweep: bool,
 }
 
 pub const RUNTIME_KEYS: [&str; 8] = [
@@ -50,6 +69,10 @@ const TEMP_DIR_KEY: &str = "datafusion.runtime.temp_directory";
 /// `SessionStateBuilder::new_from_existing` (used by every runtime `SET`) documents that it turns
 /// this start-up-only option off once the default catalog exists: not compared after a runtime SET
 const STARTUP_KEY: &str = "datafusion.catalog.create_default_catalog_and_schema";
+
+/// `SHOW` needs it: never switched off by the harness
+#[allow(dead_code)]
+const INFO_KEY: &str = "datafusion.catalog.information_schema";
 
 fn nrm(mut e: Entries, runtime_set_done: bool) -> Entries {
     if runtime_set_done {
@@ -239,7 +262,7 @@ fn runtime_sweep(s: &Sess) -> Eval {
         match s.set(k, t) {
             Err(SqlErr::Timeout) => return Eval::Inconclusive("timeout in SET".into()),
             Err(SqlErr::Failed(e)) => {
-                return Eval::Finding(Finding { class: format!("reported-text-rejected:{k}:{}", shape_of(t)), message: format!("SHOW reports {k} = {t:?} but SET {k} = {} fails: {}", quote(t), truncate(&e, 300)) });
+                return Eval::Finding(Finding { class: format!("runtime-reported-text-rejected:{}", shape_of(t)), message: format!("SHOW reports {k} = {t:?} but SET {k} = {} fails: {}", quote(t), truncate(&e, 300)) });
             }
             Ok(()) => {}
         }
@@ -304,6 +327,9 @@ pub fn evaluate(case: &Case, with_runtime_sweep: bool) -> Eval {
             // is claim 3's business when it is the set under test)
             let mut probe = shadow.clone();
             if probe.set(&k, &v).is_ok() {
+                if !probe.catalog.information_schema {
+                    continue;
+                }
                 match s.set(&k, &v) {
                     Ok(()) => {
                         shadow = probe;
@@ -364,7 +390,12 @@ pub fn evaluate(case: &Case, with_runtime_sweep: bool) -> Eval {
                 // nothing but the key itself may change in the session options
                 let others = |e: &Entries| -> Entries { e.iter().filter(|(k, _)| **k != key).map(|(k, v)| (k.clone(), v.clone())).collect() };
                 if others(&after) != others(&before) {
-                    return Eval::Finding(Finding { class: "runtime-set-changes-other-options".into(), message: format!("SET {key} changed other options: {}", diff(&others(&before), &others(&after))) });
+                    // normalised class: the three disk-manager options reset one another
+                    const DISK: [&str; 3] = ["datafusion.runtime.temp_directory", "datafusion.runtime.max_temp_directory_size", "datafusion.runtime.max_spill_merge_fan_in"];
+                    let (b, a) = (others(&before), others(&after));
+                    let changed: Vec<&String> = b.keys().chain(a.keys()).filter(|k| b.get(*k) != a.get(*k)).collect();
+                    let class = if DISK.contains(&key.as_str()) && changed.iter().all(|k| DISK.contains(&k.as_str())) { "disk-option-set-resets-other-disk-options" } else { "runtime-set-changes-other-options" };
+                    return Eval::Finding(Finding { class: class.into(), message: format!("SET {key} changed other options: {}", diff(&b, &a)) });
                 }
                 if key != TEMP_DIR_KEY {
                     if let Some(Some(t)) = after.get(&key) {
@@ -379,7 +410,7 @@ pub fn evaluate(case: &Case, with_runtime_sweep: bool) -> Eval {
                             Err(SqlErr::Timeout) => return Eval::Inconclusive("timeout in SET".into()),
                             Err(SqlErr::Failed(e)) => {
                                 return Eval::Finding(Finding {
-                                    class: format!("reported-text-rejected:{key}:{}", shape_of(t)),
+                                    class: format!("runtime-reported-text-rejected:{}", shape_of(t)),
                                     message: format!("after SET {key} = {} SHOW reports {t:?}, which SET rejects: {}", quote(&value), truncate(&e, 300)),
                                 });
                             }
@@ -423,6 +454,9 @@ pub fn evaluate(case: &Case, with_runtime_sweep: bool) -> Eval {
                 }
             }
             Ok(()) => {
+                if !probe.catalog.information_schema {
+                    return Eval::Discard("SHOW is unavailable once information_schema is switched off".into());
+                }
                 labels.push("accepted".into());
                 match s.set(&key, &value) {
                     Err(SqlErr::Timeout) => return Eval::Inconclusive("timeout in SET".into()),
@@ -485,7 +519,7 @@ pub fn evaluate(case: &Case, with_runtime_sweep: bool) -> Eval {
             }
         }
     }
-    if with_runtime_sweep {
+    if with_runtime_sweep || case.sweep {
         match runtime_sweep(&s) {
             Eval::Ok { .. } => labels.push("runtime-sweep".into()),
             other => return other,
@@ -508,10 +542,10 @@ impl Property for C43b {
     }
     fn strategy(&self, tier: Tier) -> BoxedStrategy<Case> {
         let base = prop::collection::vec((any::<u16>(), val_strategy()), 0..tier.pick(3, 8));
-        (base, any::<u16>(), val_strategy()).prop_map(|(base, key, value)| Case { base, key, value }).boxed()
+        (base, any::<u16>(), val_strategy(), prop::bool::weighted(0.03)).prop_map(|(base, key, value, sweep)| Case { base, key, value, sweep }).boxed()
     }
     fn budget(&self, tier: Tier) -> Budget {
-        Budget::new(tier.pick(6_000, 400_000), tier.pick(8, 16)).min_nontrivial(tier.pick(200, 10_000)).case_timeout(180)
+        Budget::new(tier.pick(2_500, 100_000), tier.pick(8, 16)).min_nontrivial(tier.pick(150, 5_000)).case_timeout(180).shrink(150, 60)
     }
     fn rule(&self) -> String {
         "fresh SessionContext (information_schema on) x 0-2 (thorough 0-7) prior SETs x one `SET key = 'value'` with key drawn from all session keys (3/4) or the 8 runtime keys (1/4) and the value from \
@@ -544,7 +578,8 @@ impl Property for C43b {
         // every key (session + runtime) x every `step`-th pool value, fresh context each, with the runtime sweep
         let keys = all_keys();
         let p = pool();
-        let step = tier.pick(9, 2);
+        let step = tier.pick(61, 5);
+        let rt_step = tier.pick(3, 1);
         let nrt = RUNTIME_KEYS.len();
         let ns = keys.len() - nrt;
         let mut work: Vec<Case> = vec![];
@@ -570,11 +605,11 @@ impl Property for C43b {
                 sel
             };
             if pick_key(&keys, sel) != keys[ki] {
-                return Err((format!("HARNESS: no selector for key {}", keys[ki]), Case { base: vec![], key: 0, value: Val::Pool(0) }));
+                return Err((format!("HARNESS: no selector for key {}", keys[ki]), Case { base: vec![], key: 0, value: Val::Pool(0), sweep: false }));
             }
-            let dense = ki >= ns; // runtime keys get every pool value
-            for vi in (0..p.len()).filter(|vi| dense || (vi + ki) % step == 0) {
-                work.push(Case { base: vec![], key: sel, value: Val::Pool(crate::c43a::pool_selector(vi, p.len())) });
+            let dense = ki >= ns; // runtime keys get (nearly) every pool value
+            for vi in (0..p.len()).filter(|vi| if dense { (vi + ki) % rt_step == 0 } else { (vi + ki) % step == 0 }) {
+                work.push(Case { base: vec![], key: sel, value: Val::Pool(crate::c43a::pool_selector(vi, p.len())), sweep: true });
             }
         }
         let threads = tier.pick(8, 16);
@@ -603,7 +638,7 @@ impl Property for C43b {
                     })
                 })
                 .collect();
-            hs.into_iter().map(|h| h.join().unwrap_or_else(|_| Err(("extra sub-run panicked".into(), Case { base: vec![], key: 0, value: Val::Pool(0) })))).collect()
+            hs.into_iter().map(|h| h.join().unwrap_or_else(|_| Err(("extra sub-run panicked".into(), Case { base: vec![], key: 0, value: Val::Pool(0), sweep: false })))).collect()
         });
         let mut n = 0;
         let mut known = BTreeMap::<String, u64>::new();
@@ -617,7 +652,7 @@ impl Property for C43b {
         Ok(json!({
             "all_keys_subrun": {
                 "exhaustive": true,
-                "what": format!("every session key x every {step}-th pool value and every runtime key x every pool value, each on a fresh SessionContext, followed by the runtime sweep (every reported runtime text SET back)"),
+                "what": format!("every session key x every {step}-th pool value and every runtime key x every {rt_step}-th pool value, each on a fresh SessionContext, followed by the runtime sweep (every reported runtime text SET back)"),
                 "keys": keys.len(),
                 "runtime_keys": nrt,
                 "cases": n,
